@@ -2,7 +2,7 @@
 import os
 from vklib import Builder
 
-QUICK_EXP = [-3, -1, 0, 1, 5, 52, 53, 62]
+QUICK_EXP = [-3, -1, 0, 1, 5, 15, 16, 20, 31, 32, 33, 52, 53, 62]
 FRAC_QUICK = [52, 50, 48]        # 0, 2, 4 fractional mantissa bits: CBMC time grows ~2.3x per 4 fractional bits (e=40: 207 s, e=32: 908 s)
 FRAC_THOROUGH = [46, 44, 40] + ([int(x) for x in os.environ["VK_FRAC"].split(",")] if os.environ.get("VK_FRAC") else [])
 KNOWN_BAD_EXP = [63, 64]          # finding C19-F1: f64_int_bits for x >= 2^63
